@@ -59,7 +59,8 @@ PROPS = {
         "engines": [{"name": "varsign"},
                     {"name": "varsign_tz", "env": {"TZ": "Asia/Tokyo"}},
                     {"name": "varsign_tz", "env": {"TZ": "America/St_Johns"}},
-                    {"name": "varsign_tz", "env": {"TZ": "UTC"}}],
+                    {"name": "varsign_tz", "env": {"TZ": "UTC"}},
+                    {"name": "varsign_race", "variant": "race", "gomaxprocs": "4", "env": {"GORACE": "halt_on_error=1"}, "nondeterministic": True, "replay_attempts": 20}],
         "level": "exploration",
         "technique": "simulated clock (go1.26 testing/synctest bubble advanced to a seeded instant) x simulated process time zone (time.Local assignment and TZ environment), byte-exact layout oracle and independent CMS verification of the detached signature",
         "design_ref": "DESIGN.md section 3 (C06), 2.3 (simclock)",
@@ -171,6 +172,7 @@ ENGINE_KINDS = {
     "fstrace": "recording simulated efivarfs with a firmware model; trace oracle at the filesystem boundary",
     "varstore": "seeded write/read histories on the in-memory store against a register model (+ porcupine)",
     "dbhist": "seeded edit histories against an ordered-entry reference model; encode/decode as restart",
+    "varsign_race": "2-8 free-running signing goroutines under the race detector (monitored real concurrency, not simulation); every produced update is judged by the varsign oracle afterwards",
     "varsign_tz": "same as varsign, zone configured through the TZ environment variable of the worker process",
     "varsign": "simulated clock (synctest) x zone configurations; byte-exact layout and independent CMS verification",
     "signhist": "seeded signing histories on generated PE images under a simulated clock; independent PE/CMS readers as oracle",
